@@ -300,4 +300,25 @@ func TestScenarios(t *testing.T) {
 		sc.idle(w2)           // w2 restarted as well: its own budget starts at zero, so the task is re-issued
 		sc.complete(w2, 0, 1) // fails on the largest: final
 	})
+
+	// A worker that crash-loops *after* reporting progress: it takes the task,
+	// reports EXECUTING, restarts (idle: the task is re-issued), reports
+	// EXECUTING again, restarts again, ... The re-issues count towards the
+	// retry limit whatever the worker reports in between, so the task fails
+	// with INTERNAL once the configured number of re-issues is used up.
+	scripted(t, tr, next(), "crash-loop-with-executing-reports", &fixedScript{}, func(sc *scenario) {
+		w := sc.w
+		w1 := sc.worker("w1", "h1", "main", "p1", 0)
+		sc.bogus(w1)
+		w.Advance(1)
+		sc.exec("c1", "d1", "main", noInv, 0)
+		w.Advance(1)
+		sc.idle(w1) // assigned
+		for i := 0; i < 2; i++ {
+			w.Advance(1)
+			sc.running(w1, "d1") // progress report
+			w.Advance(1)
+			sc.idle(w1) // restarted: re-issue (or, beyond the limit, INTERNAL)
+		}
+	})
 }
